@@ -83,6 +83,15 @@ def profiles_for(pid, tier):
                             ops=["ins_nt", "evict_all_nt", "close", "get"], max_steps=d + 2, max_ins=3))
         edge.append(profile("woe-close-buffer2", "woe", hash=h, memcap=3, bufcap=2,
                             ops=["ins", "ins_nt", "evict_all_nt", "close", "get"], max_steps=d + 1, max_ins=4))
+        # an entry over the per-entry limit of the disk tier (2 blocks here) is refused by the flusher; that must not
+        # affect later writes.  The write-queue threshold is 1.5 such entries and at most one entry is handed over per
+        # operation (write-on-insertion, or a memory tier of one entry), so nothing is shed by the threshold itself;
+        # a size that is not given back when an entry is refused stays over it for good after two refusals
+        edge.append(profile("woi-close-oversize", "woi", keys=[1, 2], hash={1: 5, 2: 6}, keyloc={1: "default", 2: "default"},
+                            ops=["ins", "ins_big", "close", "get"], max_steps=d + 1, max_ins=4, queue_threshold=196608))
+        edge.append(profile("woe-close-oversize", "woe", keys=[1, 2], hash={1: 5, 2: 6}, keyloc={1: "default", 2: "default"},
+                            memcap=1, ops=["ins", "ins_big", "close", "get"], max_steps=d + 1, max_ins=4,
+                            queue_threshold=196608))
         # close() while the device still holds writes of the batch in flight: it must not return
         for pol in ("woi", "woe"):
             edge.append(profile(f"{pol}-close-gated", pol, keys=[1, 2], hash={1: 5, 2: 6}, keyloc={1: "default", 2: "default"},
@@ -126,7 +135,8 @@ def harness_cfgs(d, p):
     with open(hpath, "w") as f:
         json.dump({"policy": p["policy"], "flush_on_close": p["flush_on_close"], "tomblog": p["tomblog"],
                    "memcap": p["memcap"], "keyloc": {str(k): v for k, v in p["keyloc"].items()},
-                   "buffer_pages": p["bufcap"], "reject": list(p["reject"]), "ondisk_via_writer": bool(p["writer"])}, f)
+                   "buffer_pages": p["bufcap"], "reject": list(p["reject"]), "ondisk_via_writer": bool(p["writer"]),
+                   **({"queue_threshold": p["queue_threshold"]} if p.get("queue_threshold") else {})}, f)
     return cfg, hpath
 
 
@@ -157,7 +167,11 @@ def gen_random(p, rng, num, length):
                 break
             a = rng.choice(p["ops"] + ["ins", "get", "get"])
             k = rng.choice(p["keys"])
-            if a == "ins_h" and a in p["ops"]:
+            if a == "ins_big" and a in p["ops"]:
+                if p["keyloc"][k] == "default":
+                    nins += 1
+                    ops.append({"a": a, "k": k, "loc": p["keyloc"][k]})
+            elif a == "ins_h" and a in p["ops"]:
                 if p["keyloc"][k] != "ondisk" or rng.random() < 0.3:
                     ops.append({"a": "drop_h"})
                 else:
